@@ -1,0 +1,17 @@
+//go:build verif
+
+// Contracts for package cidset (property C12). Comment-only: read by /verif/bin/gsv, never compiled into the package.
+// Clause syntax: /verif/engine/contracts.go; method: /verif/DESIGN.md.
+
+package cidset
+
+//@ onlyfor C12
+
+//@ -- a request extension's payload is whatever the peer sent: any node, or none at all (a null extension value decodes
+//@ -- to a nil Node). Decoding it must fail with an error, never panic: it runs on the response manager's only loop.
+//@ func github.com/ipld/go-ipld-prime/datamodel.Node.Kind
+//@   assumed
+//@   modifies nothing
+//@ func DecodeCidSet
+//@   lenient
+//@   modifies alloc
